@@ -167,6 +167,19 @@ theorem expected_agrees_with_table : ∀ hc ao, aoTokens.all (refusalAgrees hc a
 
 /-! ### the table is complete for the current source (API tie, regenerated on every check) -/
 
+-- Diagnostic only (the theorems below are the obligations): when the tie is broken, name the offending methods /
+-- flags in the first line of the build error, which is what `./check` prints.
+#eval show IO Unit from do
+  let api := Rustic.Gen.repositoryPublicFns
+  let unclassified := api.filter (fun n => !tableMethods.contains n)
+  let gone := tableMethods.filter (fun n => !api.contains n)
+  let dryNew := Rustic.Gen.repositoryDryRunFns.filter (fun n => !dryParamMethods.contains n) ++
+    Rustic.Gen.dryRunOptionStructs.filter (fun n => !dryFieldSites.contains n)
+  let dryGone := dryParamMethods.filter (fun n => !Rustic.Gen.repositoryDryRunFns.contains n) ++
+    dryFieldSites.filter (fun n => !Rustic.Gen.dryRunOptionStructs.contains n)
+  if !(unclassified.isEmpty && gone.isEmpty && dryNew.isEmpty && dryGone.isEmpty) then
+    throw (IO.userError s!"C15 table tie broken — public Repository methods not classified by the command table: {unclassified}; methods named by a row but gone from repository.rs: {gone}; dry_run flags without a dry-run row: {dryNew}; dry-run rows without a dry_run flag in the source: {dryGone}")
+
 /-- every public method of `Repository` in the current source is classified: a row of the table (mutating /
 destructive / dry-run capable) or the reviewed read-only list (`Cmd.methods .readOnly`). -/
 theorem table_covers_api : Rustic.Gen.repositoryPublicFns.all tableMethods.contains = true := by
